@@ -127,6 +127,14 @@ func init() {
 						return
 					}
 				}
+				// top-level names that sort before ".PKGINFO" / start with odd characters
+				for _, top := range []string{"+extras", ".BUILD", "-dash", "!bang", " lead", "#hash", "~tilde", ".a"} {
+					e := model.Entry{Src: "etc/app.conf", Dst: "/" + top + "/payload.txt"}
+					e2 := model.Entry{Src: "etc/empty", Dst: "/usr/share/x/payload.txt"}
+					if !yield(C04Case{Class: "odd-top-level", Format: f, Setting: Setting{Name: "default"}, List: []model.Entry{e, e2}}) {
+						return
+					}
+				}
 				for _, nm := range []string{"with space", "ünï/cödé", "tab\there", "100%", "a=b", "-dash", "quote\"s"} {
 					e := model.Entry{Src: "etc/app.conf", Dst: "/opt/" + nm}
 					d := model.Entry{Dst: "/opt/d " + nm, Type: "dir"}
